@@ -11,6 +11,8 @@ import (
 	"encoding/json"
 	"fmt"
 	"math/big"
+	"os"
+	"path/filepath"
 	"regexp"
 	"sort"
 	"strconv"
@@ -152,22 +154,50 @@ func decTerm(d decimal.Decimal) string {
 	return Pair(BigN(m), Z(e))
 }
 
-// patternCore strips one leading ^ and one trailing $: a pattern and its anchored form are the same pattern.
-func patternCore(s string) string {
-	s = strings.TrimPrefix(s, "^")
-	s = strings.TrimSuffix(s, "$")
-	return s
+// documented gives the meaning of an account pattern as written in a document: a pattern with both
+// anchors is used as written; otherwise the whole name "wallet/account" must match it (the
+// documentation: "specified with implicit start and end anchors ... if these are not supplied they
+// are added by Vouch").
+func documented(s string) string {
+	if strings.HasPrefix(s, "^") && strings.HasSuffix(s, "$") {
+		return s
+	}
+	return "^(?:" + s + ")$"
 }
 
 type tables struct {
 	relays   map[string]uint64
-	patterns map[string]uint64
+	patterns map[string]uint64 // regular expression source -> number
+	sigs     map[string]uint64 // behaviour on the probe names -> number
 	compiled map[uint64]*regexp.Regexp
 	values   map[string]uint64
+	probes   []string
 }
 
-func newTables() *tables {
-	return &tables{relays: map[string]uint64{}, patterns: map[string]uint64{}, compiled: map[uint64]*regexp.Regexp{}, values: map[string]uint64{}}
+// probeBases: the names the generators use, plus forms no validator of the case may have.
+var probeBases = func() []string {
+	var out []string
+	ws := append([]string{"<unknown>", "Wallet 11", "Wallet"}, wallets...)
+	as := append([]string{"<unknown>", "Account", "Account 21"}, accounts...)
+	for _, w := range ws {
+		for _, a := range as {
+			out = append(out, w+"/"+a)
+		}
+	}
+	return out
+}()
+
+func newTables(vals []Validator) *tables {
+	t := &tables{relays: map[string]uint64{}, patterns: map[string]uint64{}, sigs: map[string]uint64{},
+		compiled: map[uint64]*regexp.Regexp{}, values: map[string]uint64{}}
+	bases := append([]string{}, probeBases...)
+	for _, v := range vals {
+		bases = append(bases, v.specName())
+	}
+	for _, b := range bases {
+		t.probes = append(t.probes, b, b+"x", "x"+b)
+	}
+	return t
 }
 
 func (t *tables) relay(addr string) uint64 {
@@ -185,20 +215,41 @@ func (t *tables) relay(addr string) uint64 {
 	return id
 }
 
-// pattern returns the number of an account pattern, or false when it does not compile.  The
-// documented meaning of a pattern is "the whole name matches": ^(?:core)$.
-func (t *tables) pattern(s string) (uint64, bool) {
-	core := patternCore(s)
-	if id, ok := t.patterns[core]; ok {
+// pattern numbers an account pattern, or returns false when it does not compile.  Patterns are
+// numbered by what they match among the probe names (which include the names of the case's
+// validators): the model only ever asks whether a pattern matches a validator of the case, and the
+// text the implementation chooses for an anchored pattern is not an observable.  asWritten: the
+// source is a regular expression the implementation holds (matched as it is); otherwise it is a
+// pattern of a document, with its documented meaning.
+func (t *tables) pattern(s string, asWritten bool) (uint64, bool) {
+	src := s
+	if !asWritten {
+		src = documented(s)
+	}
+	if id, ok := t.patterns[src]; ok {
 		return id, true
 	}
-	re, err := regexp.Compile("^(?:" + core + ")$")
+	if _, err := regexp.Compile(s); err != nil {
+		return 0, false // not a regular expression on its own
+	}
+	re, err := regexp.Compile(src)
 	if err != nil {
 		return 0, false
 	}
-	id := uint64(1 + len(t.patterns))
-	t.patterns[core] = id
-	t.compiled[id] = re
+	sig := make([]byte, len(t.probes))
+	for i, name := range t.probes {
+		sig[i] = '0'
+		if re.MatchString(name) {
+			sig[i] = '1'
+		}
+	}
+	id, ok := t.sigs[string(sig)]
+	if !ok {
+		id = uint64(1 + len(t.sigs))
+		t.sigs[string(sig)] = id
+		t.compiled[id] = re
+	}
+	t.patterns[src] = id
 	return id, true
 }
 
@@ -280,7 +331,7 @@ func (t *tables) proposerLeaf(s string) string {
 	if strings.HasPrefix(s, "0x") {
 		return t.keyLeaf(s)
 	}
-	if id, ok := t.pattern(s); ok {
+	if id, ok := t.pattern(s, false); ok {
 		return App("LRegex", N(id))
 	}
 	return "LBad"
@@ -461,6 +512,13 @@ func (t *tables) tree(text []byte) string {
 				if v == nil {
 					return "JNull"
 				}
+				if m, ok := v.(map[string]any); ok {
+					for k := range m {
+						if _, ok := hexBytes(k, 48); !ok {
+							return "(JStr LBad)" // a key that is not a public key: refused
+						}
+					}
+				}
 				return t.mapOf(v, func(k string) string {
 					if b, ok := hexBytes(k, 48); ok {
 						return t.bytesN(b)
@@ -509,7 +567,7 @@ func (t *tables) optKey(k *phase0.BLSPubKey) string {
 
 func durN(d int64) string {
 	if d < 0 {
-		return N(0) // outside the modelled domain (int64 overflow of ms * 10^6)
+		return N(0) // cannot be configured any more (grace values that overflow are refused)
 	}
 	return N(uint64(d))
 }
@@ -556,7 +614,7 @@ func (t *tables) parsed2(e *v2.ExecutionConfig) (string, bool) {
 		}
 		var sel string
 		if p.Account != nil {
-			id, compiles := t.pattern(p.Account.String())
+			id, compiles := t.pattern(p.Account.String(), true)
 			if !compiles {
 				ok = false
 			}
@@ -801,7 +859,7 @@ func (t *tables) lookupSafe(c blockrelay.ExecutionConfigurator, v Validator, fee
 }
 
 func run(in Input, id uint64) (term string, obs observed) {
-	t := newTables()
+	t := newTables(in.Validators)
 	var fee bellatrix.ExecutionAddress
 	if b, ok := hexBytes(in.FallbackFee, 20); ok {
 		copy(fee[:], b)
@@ -873,8 +931,142 @@ func run(in Input, id uint64) (term string, obs observed) {
 	}
 	term = "(let o1 := " + out1 + " in " + Record("c_id", N(id), "c_doc", doc, "c_fbfee", t.bytesN(fee[:]), "c_fbgas", N(in.FallbackGas),
 		"c_vals", List(vals), "c_ok1", Bool(obs.OK1), "c_parsed", parsed, "c_out1", "o1", "c_shown", shownRef,
-		"c_marshalled", marshalled, "c_ok2", Bool(obs.OK2), "c_out2", out2Ref) + ")"
+		"c_marshalled", marshalled, "c_ok2", Bool(obs.OK2), "c_out2", out2Ref, "c_v1_per_value", Bool(v1PerValue())) + ")"
 	return term, obs
+}
+
+// v1PerValue: known_findings.json registers C10-v1-entry-not-fieldwise (any status), so legacy
+// lookups are judged by the per-value reading of docs/execlayer.md (Check.C10.P_b).
+var v1PerValueOnce struct {
+	done bool
+	val  bool
+}
+
+func v1PerValue() bool {
+	if v1PerValueOnce.done {
+		return v1PerValueOnce.val
+	}
+	v1PerValueOnce.done = true
+	root := filepath.Join("..", "..")
+	if c := os.Getenv("VERIF_CORPUS"); c != "" {
+		root = filepath.Dir(c)
+	}
+	data, err := os.ReadFile(filepath.Join(root, "known_findings.json"))
+	if err != nil {
+		return false
+	}
+	var kf struct {
+		Findings []struct {
+			ID string `json:"id"`
+		} `json:"findings"`
+	}
+	if json.Unmarshal(data, &kf) != nil {
+		return false
+	}
+	for _, f := range kf.Findings {
+		if f.ID == "C10-v1-entry-not-fieldwise" {
+			v1PerValueOnce.val = true
+		}
+	}
+	return v1PerValueOnce.val
+}
+
+// v1Fieldwise: a legacy document in which the own entry of one of the validators lacks a gas limit
+// or a builder that default_config has: the inputs on which the per-value reading of
+// docs/execlayer.md and the code's whole-entry selection can differ (known finding
+// C10-v1-entry-not-fieldwise; computed from the input only).
+func v1Fieldwise(in Input) bool {
+	dec := json.NewDecoder(strings.NewReader(in.Doc))
+	dec.UseNumber()
+	var doc map[string]any
+	if err := dec.Decode(&doc); err != nil {
+		return false
+	}
+	if v, ok := doc["version"]; ok && v != nil {
+		if n, isNum := v.(json.Number); !isNum || string(n) != "0" {
+			return false
+		}
+	}
+	def, _ := doc["default_config"].(map[string]any)
+	pcs, _ := doc["proposer_config"].(map[string]any)
+	if def == nil || pcs == nil {
+		return false
+	}
+	hasGas := func(m map[string]any) bool {
+		s, _ := m["gas_limit"].(string)
+		n, err := strconv.ParseUint(s, 10, 64)
+		return err == nil && n != 0
+	}
+	for _, v := range in.Validators {
+		want, ok := hexBytes(v.Pubkey, 48)
+		if !ok {
+			continue
+		}
+		for k, e := range pcs {
+			if b, ok := hexBytes(k, 48); !ok || !bytes.Equal(b, want) {
+				continue
+			}
+			entry, isObj := e.(map[string]any)
+			if !isObj {
+				continue // null: no entry (the default applies under both readings); anything else is refused
+			}
+			if !hasGas(entry) && hasGas(def) {
+				return true
+			}
+			if _, has := entry["builder"].(map[string]any); !has {
+				if _, defHas := def["builder"].(map[string]any); defHas {
+					return true
+				}
+			}
+		}
+	}
+	return false
+}
+
+// matchStats counts, per (v2 document, validator), how the proposer entries apply: none, exactly
+// one, several (only the first may count), and whether the applicable entry is preceded by
+// non-matching ones.  Computed from the input with the documented meaning of the selectors.
+func matchStats(in Input, col *Collector) {
+	dec := json.NewDecoder(strings.NewReader(in.Doc))
+	dec.UseNumber()
+	var doc map[string]any
+	if err := dec.Decode(&doc); err != nil {
+		return
+	}
+	if n, ok := doc["version"].(json.Number); !ok || string(n) != "2" {
+		return
+	}
+	props, _ := doc["proposers"].([]any)
+	for _, v := range in.Validators {
+		var hits []int
+		for i, p := range props {
+			m, _ := p.(map[string]any)
+			sel, _ := m["proposer"].(string)
+			switch {
+			case strings.HasPrefix(sel, "0x"):
+				if strings.EqualFold(sel, v.Pubkey) {
+					hits = append(hits, i)
+				}
+			case sel != "":
+				if _, err := regexp.Compile(sel); err == nil {
+					if re, err := regexp.Compile(documented(sel)); err == nil && re.MatchString(v.specName()) {
+						hits = append(hits, i)
+					}
+				}
+			}
+		}
+		switch {
+		case len(hits) == 0:
+			col.Count("v2-entries-matching:none")
+		case len(hits) == 1:
+			col.Count("v2-entries-matching:one")
+		default:
+			col.Count("v2-entries-matching:several")
+		}
+		if len(hits) > 0 && hits[0] > 0 {
+			col.Count("v2-first-match-not-first-entry")
+		}
+	}
 }
 
 func TestC10(t *testing.T) {
@@ -892,6 +1084,11 @@ func TestC10(t *testing.T) {
 		ins = append(ins, gen(rng.Fork(), col))
 	}
 	for _, in := range ins {
+		if v1Fieldwise(in) {
+			in.Tags = append(in.Tags, "v1-fieldwise")
+			col.Count("v1:own-entry-incomplete")
+		}
+		matchStats(in, col)
 		id := col.NextID()
 		term, obs := run(in, id)
 		if obs.OK1 {
